@@ -2,9 +2,13 @@
 from __future__ import annotations
 
 import array
+import asyncio
+import contextvars
 import ctypes
 import functools
 import math
+import sys
+import threading
 import time
 
 from hypothesis import strategies as st
@@ -37,11 +41,27 @@ RULE = (
     "BaseException subclass) or entered in a generator that is suspended inside the block and then closed / dropped, and probes with an "
     "invalid assignment inside every block and after every exit. Two more campaigns draw op sequences (start / resume / close / "
     "caller probe) over 1-2 generators or hand-driven coroutines that suspend INSIDE their own disable block: the caller, which is "
-    "in no block, probes while they are suspended ('suspended') or only once none is inside a real block ('interleaved'). Non-trivial = an out-of-domain element at a "
+    "in no block, probes while they are suspended ('suspended') or only once none is inside a real block ('interleaved'). "
+    "Two further campaigns ('threads', 'contexts') draw a schedule of up to 20 operations over 2-4 REAL threads, 0-3 asyncio tasks "
+    "of a private event loop driven by the harness thread, the harness thread itself and 0-4 contexts made by "
+    "contextvars.copy_context(); the harness owns the schedule (strict baton hand-over through semaphores / futures: one "
+    "operation at a time, nothing concurrent, every thread joined and every task finished at the end of the case; a 30 s "
+    "watchdog only turns a stuck hand-over into a harness error). Operations: enter a disable block (ignore=True/False, "
+    "nesting <= 3) as a real with statement on the actor's stack, leave the innermost own block normally or by one of 7 "
+    "exceptions, probe (an out-of-domain store, then an in-domain store, on the actor's own or on ONE shared message object), "
+    "copy the current context, Context.run(copy) by the harness or a thread (a probe, optionally followed by a block of its own "
+    "entered, probed and left inside that run), create a task (from the harness or a task), start a thread (from a thread). "
+    "'threads' derives contexts/tasks/threads only where the deriving actor is inside no real block, 'contexts' also inside "
+    "blocks (used while those blocks are open and after they were left). Every case ends with: everybody leaves and ends, "
+    "then a probe in the harness thread, in every copied context and in a newly started thread. Oracle: a store by an "
+    "actor that is inside no real block of its OWN, whose context was derived while no still-open real block was open, must be "
+    "refused with the bytes unchanged (and the in-domain store accepted and read back); inside an own real block it must not "
+    "be refused. Non-trivial = an out-of-domain element at a "
     "non-first position of a sequence, or out-of-domain content in a reused, mutated sequence object, or an out-of-domain store "
     "through a view bound inside a since-left disable block, or an "
     "accepted boundary value, or a disable forest with a block left by "
-    "exception; distinct = (kind, element type, form, cause, position class, neighbour class, length class) / "
+    "exception, or a threads/contexts schedule with a judged store outside every block while another actor is inside one / "
+    "after non-nested blocks of two actors / in a context derived outside every block / derived inside a since-left block; distinct = (kind, element type, form, cause, position class, neighbour class, length class) / "
     "(kind, type, form, boundary classes) / forest signature."
 )
 ASSUME = [
@@ -70,6 +90,13 @@ ASSUME = [
     "collection / normal completion validation must be in force again",
     "a caller that is lexically and dynamically outside every disable block is 'not inside an explicit disable block' even while "
     "a generator or coroutine it drives is suspended inside one (asyncio Tasks run in their own context and are not affected)",
+    "threads / contexts campaigns: 'inside an explicit disable block' is read as: the executing context entered a real block "
+    "itself and has not left it (must not be refused), or it was derived - copy_context(), asyncio task - from a context in "
+    "which a real block was open at that moment and that block's with body is still executing, or the thread that calls "
+    "Context.run is itself inside a real block of its own (both not judged: no document decides). Once every block that was "
+    "open at derivation has been left and the context is in none of its own, the store MUST be validated. A new thread "
+    "starts outside every block (unless the interpreter copies the starter's context, sys.flags.thread_inherit_context). "
+    "In-domain stores are only judged where validation must be on",
     "disable-block probes use assignments that ctypes itself accepts silently (int8=200, byte=256, float32[]=[0,1e39,..], "
     "struct=()), so 'raised' can only come from the validators",
 ]
@@ -95,10 +122,15 @@ _BOUND = (V.ArrayField, V.StructArray)
 
 def _reset_validation():
     """Clean state between cases, whatever an earlier case (or a defect) left behind."""
-    V._VALIDATION_ENABLED.set(True)
+    sw = V._VALIDATION_ENABLED
+    if hasattr(sw, "set"):  # a plain flag (context variable or any holder with the same calls)
+        sw.set(True)
     depth = getattr(V, "_DISABLE_DEPTH", None)  # a nesting counter, should the code under test keep one
     if depth is not None:
         depth.set(0)
+    blocks = getattr(V, "_DISABLE_BLOCKS", None)  # the entered blocks themselves, should it keep those
+    if blocks is not None:
+        blocks.set(())
 
 
 VIEW_ORIGINS = ["outside", "outside-then-block", "inside-normal", "inside-exc", "inside-base", "used-inside"]
@@ -234,6 +266,9 @@ def judge(fi: FI, form: str, k, value, before_model):
         elif isinstance(value, array.array):
             j["vform"] = "array.array:" + value.typecode
     else:
+        if not tg:  # nothing is stored: empty slices are a don't-care whatever is assigned to them
+            j.update(verdict="dc", cause="empty")
+            return j
         j.update(verdict="out", cause="not-a-sequence")
         return j
     cls_ = [msgs.classify_elem(fi, x, True) for x in elems]
@@ -706,9 +741,507 @@ def run_suspended_case(trace: dict, res: Result):
         res.sample({"suspended-generators": story, "probe": kind}, limit=5)
 
 
+# -- execution contexts: threads, copied contexts, asyncio tasks ----------------------------------
+#
+# The harness owns the schedule: every actor (a real thread, or an asyncio task on a private event loop driven by the
+# harness thread) executes exactly one operation when it is handed the baton and hands it back; nothing ever runs
+# concurrently, so a case is deterministic.  WATCHDOG_S only turns a stuck hand-over into a harness error.
+
+WATCHDOG_S = 30.0
+CTX_EXITS = ["ValueError", "StopIteration", "KeyboardInterrupt", "SystemExit", "GeneratorExit", "CancelledError", "CustomBaseException"]
+MAX_THREADS, MAX_TASKS, MAX_COPIES = 4, 3, 4
+KEY_THREAD = "contexts/validation-off-in-thread-inside-no-block"
+KEY_SEPARATE = "contexts/validation-off-in-separate-context-inside-no-block"
+KEY_DERIVED = "contexts/validation-off-in-context-derived-inside-since-left-block"
+KEY_ON_INSIDE = "contexts/validation-on-inside-own-disable-block"
+
+# kind -> (family class, field, out-of-domain value that ctypes itself stores silently, in-domain value for step n)
+_CTX_FIELDS = {
+    "int": ("FAM_SCALARS", "i8", lambda n: 200, lambda n: n % 100),
+    "byte": ("FAM_SCALARS", "by", lambda n: 256, lambda n: n % 200),
+    "farr": ("FAM_ARR3", "f32_a", lambda n: [0.0, 1e39, 0.0], lambda n: [1.0, float(n % 50), 0.5]),
+    "struct": ("FAM_STRUCTS", "st", lambda n: (), lambda n: _small(n)),
+}
+
+
+def _small(n: int):
+    s = msgs.FAMILY["FS_SMALL"]()
+    s._a = n % 100  # through the ctypes field: the value does not depend on the validators under test
+    return s
+
+
+def _ctx_probe(kind: str, msg, n: int) -> dict:
+    """An out-of-domain store followed by an in-domain store on msg, executed wherever the caller is."""
+    _cls, name, bad, good = _CTX_FIELDS[kind]
+    fi = msgs.field(type(msg), name)
+    before = bytes(msg)
+    o = {"raised": None, "changed": False, "good_raised": None, "good_back": True}
+    try:
+        setattr(msg, name, bad(n))
+    except HarnessError:
+        raise
+    except Exception as e:
+        o["raised"] = type(e).__name__
+    o["changed"] = bytes(msg) != before
+    g = good(n)
+    want = bytes(g) if kind == "struct" else g
+    try:
+        setattr(msg, name, g)
+    except HarnessError:
+        raise
+    except Exception as e:
+        o["good_raised"] = f"{type(e).__name__}: {e}"
+    else:
+        try:
+            o["good_back"] = _model_equal(fi, msgs.read_field(msg, fi), want)
+        except Exception as e:
+            o["good_back"] = False
+            o["good_raised"] = f"read back: {e!r}"
+    return o
+
+
+def _ctx_program(prog, kind: str, msg, n: int) -> list:
+    """What `Context.run` executes: a probe, and with prog = [ignore, exit kind] also a block of its own that is entered
+    and left inside this one run, probed inside and afterwards."""
+    obs = [("", _ctx_probe(kind, msg, n))]
+    if prog is not None:
+        marker = _make_exit(prog[1]) if prog[1] else None
+        try:
+            with V.disable_message_validation(ignore=prog[0]):
+                obs.append(("inside", _ctx_probe(kind, msg, n + 1)))
+                if marker is not None:
+                    raise marker
+        except BaseException as e:
+            if e is not marker:
+                raise
+        obs.append(("after", _ctx_probe(kind, msg, n + 2)))
+    return obs
+
+
+def _exec_simple(cmd):
+    """Operations that do not block: executed by whoever holds the baton, in its own context."""
+    op = cmd[0]
+    if op == "probe":
+        return _ctx_probe(*cmd[1:])
+    if op == "copy":
+        return contextvars.copy_context()
+    if op == "run":
+        return cmd[1].run(_ctx_program, *cmd[2:])
+    if op == "tstart":
+        cmd[1].start()
+        return None
+    raise HarnessError(f"unknown actor command {cmd[0]}")
+
+
+class _Stop(BaseException):
+    pass
+
+
+class _ThreadActor:
+    """A real thread that executes one command per hand-over; `with` blocks are real with statements on its stack."""
+
+    def __init__(self, name: str):
+        self.name, self.cmd, self.result, self.error = name, None, None, None
+        self.go, self.done = threading.Semaphore(0), threading.Semaphore(0)
+        self.stopping = False
+        self.thread = threading.Thread(target=self._main, name=f"verif-c09-{name}", daemon=True)
+
+    # -- harness side
+    def start(self):  # called by the creating actor (a new thread starts in an empty context)
+        self.thread.start()
+
+    def wait(self):
+        if not self.done.acquire(timeout=WATCHDOG_S):
+            raise HarnessError(f"thread actor {self.name} did not hand the baton back")
+        if self.error is not None:
+            raise HarnessError(f"thread actor {self.name} failed: {self.error!r}") from self.error
+
+    def call(self, cmd):
+        self.cmd, self.result = cmd, None
+        self.go.release()
+        self.wait()
+        return self.result
+
+    def finish(self):
+        if self.thread.ident is None:
+            return
+        if self.thread.is_alive() and not self.stopping:
+            self.stopping = True
+            self.cmd = ("stop",)
+            self.go.release()
+        self.thread.join(WATCHDOG_S)
+        if self.thread.is_alive():
+            raise HarnessError(f"thread actor {self.name} could not be joined")
+
+    # -- thread side
+    def _next(self):
+        self.done.release()
+        if not self.go.acquire(timeout=4 * WATCHDOG_S):
+            raise _Stop()
+        return self.cmd
+
+    def _main(self):
+        try:
+            self._body(0)
+        except _Stop:
+            pass
+        except BaseException as e:  # reported by the harness as a harness error
+            self.error = e
+        finally:
+            self.done.release()
+
+    def _body(self, depth: int) -> str:
+        while True:
+            if self.stopping:
+                return ""
+            cmd = self._next()
+            op = cmd[0]
+            if op == "enter":
+                marker = None
+                try:
+                    with V.disable_message_validation(ignore=cmd[1]):
+                        ek = self._body(depth + 1)
+                        if ek:
+                            marker = _make_exit(ek)
+                            raise marker
+                except BaseException as e:
+                    if e is not marker:
+                        raise
+            elif op == "leave":
+                if depth == 0:
+                    raise HarnessError("leave without a block")
+                return cmd[1]
+            elif op == "stop":
+                self.stopping = True
+            else:
+                self.result = _exec_simple(cmd)
+
+
+class _TaskActor:
+    """An asyncio task on the case's private event loop (which the harness thread drives); its context is the copy
+    asyncio took when the task was created."""
+
+    def __init__(self, name: str, loop):
+        self.name, self.loop, self.result, self.error = name, loop, None, None
+        self.ack, self.fut, self.task = loop.create_future(), None, None
+        self.stopping = False
+
+    # -- harness side
+    def start(self):  # called by the creating actor: a task of the loop, or the harness itself
+        self.task = self.loop.create_task(self._main())
+
+    def wait(self):
+        if not self.ack.done():
+            h = self.loop.call_later(WATCHDOG_S, self.loop.stop)
+            try:
+                self.loop.run_until_complete(self.ack)
+            except RuntimeError as e:
+                raise HarnessError(f"task actor {self.name} did not hand the baton back: {e}")
+            finally:
+                h.cancel()
+        if self.error is not None:
+            raise HarnessError(f"task actor {self.name} failed: {self.error!r}") from self.error
+
+    def call(self, cmd):
+        self.result = None
+        self.ack = self.loop.create_future()
+        self.fut.set_result(cmd)
+        self.wait()
+        return self.result
+
+    def finish(self):
+        if self.task is None or self.task.done():
+            return
+        self.stopping = True
+        if self.fut is not None and not self.fut.done():
+            self.ack = self.loop.create_future()
+            self.fut.set_result(("stop",))
+        h = self.loop.call_later(WATCHDOG_S, self.loop.stop)
+        try:
+            self.loop.run_until_complete(self.task)
+        except RuntimeError as e:
+            raise HarnessError(f"task actor {self.name} could not be finished: {e}")
+        finally:
+            h.cancel()
+
+    # -- task side
+    async def _next(self):
+        self.fut = self.loop.create_future()
+        if not self.ack.done():
+            self.ack.set_result(None)
+        return await self.fut
+
+    async def _main(self):
+        try:
+            await self._body(0)
+        except BaseException as e:
+            self.error = e
+        finally:
+            if not self.ack.done():
+                self.ack.set_result(None)
+
+    async def _body(self, depth: int) -> str:
+        while True:
+            if self.stopping:
+                return ""
+            cmd = await self._next()
+            op = cmd[0]
+            if op == "enter":
+                marker = None
+                try:
+                    with V.disable_message_validation(ignore=cmd[1]):
+                        ek = await self._body(depth + 1)
+                        if ek:
+                            marker = _make_exit(ek)
+                            raise marker
+                except BaseException as e:
+                    if e is not marker:
+                        raise
+            elif op == "leave":
+                if depth == 0:
+                    raise HarnessError("leave without a block")
+                return cmd[1]
+            elif op == "stop":
+                self.stopping = True
+            elif op == "spawn":
+                cmd[1].start()
+            else:
+                self.result = _exec_simple(cmd)
+
+
+class _Blk:
+    __slots__ = ("real", "open", "owner", "seq")
+
+    def __init__(self, real: bool, owner: str, seq: int):
+        self.real, self.open, self.owner, self.seq = real, True, owner, seq
+
+
+class _EC:
+    """Model of one execution context: the blocks that were open in the context it was derived from at that moment
+    (`inherited`) and the blocks it entered itself (`own`, innermost last)."""
+
+    def __init__(self, name: str, kind: str, inherited=()):
+        self.name, self.kind, self.inherited, self.own = name, kind, list(inherited), []
+        self.actor = self.ctx = self.msg = None
+
+    def open_chain(self):
+        return [b for b in self.inherited + self.own if b.real and b.open]
+
+    def own_open(self):
+        return [b for b in self.own if b.real and b.open]
+
+    def inherited_open(self):
+        return [b for b in self.inherited if b.open]
+
+
+def run_contexts_case(trace: dict, res: Result):
+    _reset_validation()
+    kind, sub = trace["probe"], trace["sub"]
+    mcls = msgs.FAMILY[_CTX_FIELDS[kind][0]]
+    shared = mcls()
+    ecs = {"main": _EC("main", "main")}
+    threads, tasks, copies = [], [], []
+    st_ = {"loop": None, "n": 0, "overlap": False}
+    sig = []
+    flags = set()
+    inherit = bool(getattr(sys.flags, "thread_inherit_context", 0))  # interpreters whose new threads copy the starter's context
+
+    def story():
+        return " ".join(sig)
+
+    def need(cond, op):
+        if not cond:
+            raise HarnessError(f"contexts: illegal op {op} ({story()})")
+
+    def loop():
+        if st_["loop"] is None:
+            st_["loop"] = asyncio.new_event_loop()
+        return st_["loop"]
+
+    def msg_of(ec, use_shared):
+        if use_shared:
+            return shared
+        if ec.msg is None:
+            ec.msg = mcls()
+        return ec.msg
+
+    def do(ec, cmd):
+        return _exec_simple(cmd) if ec.kind == "main" else ec.actor.call(cmd)
+
+    def others_inside(ec):
+        return sorted({b.owner for e in ecs.values() if e is not ec for b in e.own_open()})
+
+    def judge(ec, o, where, runner=None, prog_real=False, use_shared=False):
+        """o: observation of one probe executed in context ec (through Context.run by `runner` if given)."""
+        runner_open = runner.own_open() if runner is not None else []
+        if prog_real or ec.own_open():
+            expect = "off"
+        elif ec.inherited_open() or runner_open:
+            expect = "dc"
+        else:
+            expect = "on"
+        res.count(f"{sub}:probe:{ec.kind}:{'must-validate' if expect == 'on' else 'own-block' if expect == 'off' else 'not-judged'}:"
+                  f"{'raised' if o['raised'] else 'silent'}")
+        if use_shared:
+            res.count(f"{sub}:probe-on-shared-message")
+        desc = f"invalid {kind} store by {ec.name}" + (f" run by {runner.name}" if runner is not None else "") + f" ({where}; ops {story()})"
+        if o["raised"] and o["changed"]:
+            raise Violation("contexts/refused-store-changed-bytes", f"{desc}: raised {o['raised']} but the message bytes changed", trace)
+        if expect == "off" and o["raised"]:
+            raise Violation(KEY_ON_INSIDE, f"{desc}: refused inside a real disable block of its own", trace)
+        if expect != "on":
+            return
+        oth = others_inside(ec)
+        if oth:
+            flags.add("store-outside-while-another-context-is-inside-a-block")
+        if st_["overlap"]:
+            flags.add("store-after-overlapping-blocks-of-two-contexts")
+        if ec.inherited:
+            flags.add("store-in-context-derived-inside-a-since-left-block")
+        elif ec.kind in ("copy", "task"):
+            flags.add("store-in-context-derived-outside-every-block")
+        if not o["raised"]:
+            if ec.inherited:
+                raise Violation(KEY_DERIVED, f"{desc}: accepted although every disable block that was open when this context was "
+                                f"derived ({len(ec.inherited)}) has been left and it is inside no block of its own", trace)
+            now = f"; inside a block right now: {', '.join(oth)}" if oth else "; nobody is inside a block right now"
+            raise Violation(KEY_THREAD if ec.kind in ("main", "thread") else KEY_SEPARATE,
+                            f"{desc}: accepted although this {ec.kind} is inside no disable block and was derived inside none{now}", trace)
+        if o["good_raised"]:
+            raise Violation("contexts/in-domain-store-refused", f"in-domain {kind} store by {ec.name} ({where}; ops {story()}): {o['good_raised']}", trace)
+        if not o["good_back"]:
+            raise Violation("contexts/in-domain-store-readback-mismatch", f"in-domain {kind} store by {ec.name} ({where}; ops {story()}) reads back differently", trace)
+
+    def derive(parent, name, kind_):
+        ec = _EC(name, kind_, parent.open_chain() if (kind_ != "thread" or inherit) else ())
+        res.count(f"{sub}:derived:{kind_}:{min(len(parent.open_chain()), 2)}{'+' if len(parent.open_chain()) > 2 else ''}-blocks-open")
+        ecs[name] = ec
+        return ec
+
+    def start_thread(parent):
+        ec = derive(parent, f"t{len(threads)}", "thread")
+        ec.actor = _ThreadActor(ec.name)
+        threads.append(ec)
+        do(parent, ("tstart", ec.actor))
+        ec.actor.wait()
+        return ec
+
+    def apply(op):
+        st_["n"] += 3
+        n = st_["n"]
+        what = op[0]
+        res.count(f"{sub}:op:{what}")
+        if what == "run":
+            need(0 <= op[1] < len(copies) and op[2] in ecs and ecs[op[2]].kind in ("main", "thread"), op)
+            ec, runner, prog, ush = copies[op[1]], ecs[op[2]], op[3], bool(op[4])
+            sig.append(f"{ec.name}>{runner.name}" + ("" if prog is None else "[" + ("I" if prog[0] else "R") + ("!" + prog[1] if prog[1] else "") + "]"))
+            obs = do(runner, ("run", ec.ctx, prog, kind, msg_of(ec, ush), n))
+            for where, o in obs:
+                judge(ec, o, f"Context.run, {where or 'directly'}", runner=None if runner.kind == "main" else runner,
+                      prog_real=(where == "inside" and not prog[0]), use_shared=ush)
+            return
+        need(op[1] in ecs and ecs[op[1]].kind in ("main", "thread", "task"), op)
+        ec = ecs[op[1]]
+        if what == "enter":
+            need(ec.kind != "main", op)
+            sig.append(f"{ec.name}+{'I' if op[2] else 'R'}")
+            if not op[2] and others_inside(ec):
+                flags.add("blocks-of-two-contexts-open-at-once")
+            ec.actor.call(("enter", bool(op[2])))
+            ec.own.append(_Blk(not op[2], ec.name, n))
+        elif what == "leave":
+            need(ec.kind != "main" and ec.own and ec.own[-1].open, op)
+            need(op[2] == "" or op[2] in CTX_EXITS, op)
+            sig.append(f"{ec.name}-" + ("!" + op[2] if op[2] else ""))
+            b = ec.own.pop()
+            ec.actor.call(("leave", op[2]))
+            b.open = False
+            if b.real:
+                res.count(f"{sub}:leave:{'exception' if op[2] else 'normal'}")
+                if any(x.real and x.open and x.seq > b.seq for e in ecs.values() if e is not ec for x in e.own):
+                    st_["overlap"] = True  # a block another context entered later is still open: the two are not nested
+        elif what == "probe":
+            sig.append(f"{ec.name}?")
+            o = do(ec, ("probe", kind, msg_of(ec, bool(op[2])), n))
+            judge(ec, o, "own stack", use_shared=bool(op[2]))
+        elif what == "copy":
+            need(len(copies) < MAX_COPIES, op)
+            new = derive(ec, f"c{len(copies)}", "copy")
+            sig.append(f"{new.name}=copy@{ec.name}")
+            new.ctx = do(ec, ("copy",))
+            copies.append(new)
+        elif what == "spawn":
+            need(ec.kind in ("main", "task") and len(tasks) < MAX_TASKS, op)
+            new = derive(ec, f"a{len(tasks)}", "task")
+            sig.append(f"{new.name}=task@{ec.name}")
+            new.actor = _TaskActor(new.name, loop())
+            tasks.append(new)
+            if ec.kind == "main":
+                new.actor.start()
+            else:
+                ec.actor.call(("spawn", new.actor))
+            new.actor.wait()
+        elif what == "tstart":
+            need(ec.kind in ("main", "thread") and len(threads) < MAX_THREADS, op)
+            sig.append(f"t{len(threads)}=thread@{ec.name}")
+            start_thread(ec)
+        else:
+            raise HarnessError(f"unknown op {op}")
+
+    try:
+        need(1 <= trace["threads"] <= MAX_THREADS, "threads")
+        for _ in range(trace["threads"]):
+            start_thread(ecs["main"])
+        for op in trace["ops"]:
+            apply(op)
+        # epilogue: every actor leaves its blocks (normally, innermost first) and ends; every thread is joined; then nothing
+        # is inside a block anywhere and every context that still exists must validate
+        for ec in threads + tasks:
+            ec.actor.finish()
+            if ec.actor.error is not None:
+                raise HarnessError(f"actor {ec.name} failed: {ec.actor.error!r}") from ec.actor.error
+            for b in ec.own:
+                b.open = False
+            ec.own.clear()
+        sig.append("end")
+        st_["n"] += 3
+        judge(ecs["main"], _exec_simple(("probe", kind, shared, st_["n"])), "after every actor ended", use_shared=True)
+        for ec in copies:
+            st_["n"] += 3
+            for where, o in _exec_simple(("run", ec.ctx, None, kind, msg_of(ec, False), st_["n"])):
+                judge(ec, o, "Context.run after every actor ended")
+        ec = start_thread(ecs["main"])  # a thread born after everything
+        judge(ec, ec.actor.call(("probe", kind, shared, st_["n"] + 3)), "fresh thread after every actor ended", use_shared=True)
+        ec.actor.finish()
+    finally:
+        errs = []
+        for ec in threads + tasks:
+            try:
+                if ec.actor is not None:
+                    ec.actor.finish()
+            except BaseException as e:  # noqa
+                errs.append(e)
+        if st_["loop"] is not None:
+            try:
+                st_["loop"].close()
+            except BaseException as e:  # noqa
+                errs.append(e)
+        _reset_validation()
+        if errs and sys.exc_info()[0] is None:
+            raise HarnessError(f"contexts: cleanup failed: {errs[0]!r}")
+    for f in sorted(flags):
+        res.count("nontrivial:" + f)
+    if flags:
+        res.shape("ctx", story(), kind)
+        res.count(f"nontrivial:{sub}-schedule")
+        res.sample({f"{sub}-schedule": story(), "probe": kind}, limit=6)
+
+
 def run_case(trace: dict, res: Result):
     if trace["sub"] in ("suspended", "interleaved"):
         run_suspended_case(trace, res)
+    elif trace["sub"] in ("threads", "contexts"):
+        run_contexts_case(trace, res)
     elif trace["sub"] == "disable":
         run_disable_case(trace, res)
     else:
@@ -884,6 +1417,8 @@ def _seq_value(draw, ccls: type, fi: FI, L: int, whole: bool):
             if draw(st.integers(0, 3)) == 0:  # the same content as an array.array
                 return {"arr": v["C"], "v": v["v"]}
             return v
+        if fi.kind == "sarr" and draw(st.booleans()):  # a ctypes array whose element type is another struct class
+            return draw(msgs.struct_wrong_ctypes_array(fi.scls, L))
         mode = "one-bad"
     if mode == "source" and not whole:
         mode = "one-bad"
@@ -1042,6 +1577,72 @@ def suspended_case(draw, sub: str):
     return {"sub": sub, "gens": gens, "ops": ops, "probe": draw(st.sampled_from(["int", "byte", "farr", "struct"]))}
 
 
+_CTX_EXIT = st.one_of(st.just(""), st.just(""), st.sampled_from(CTX_EXITS))
+_CTX_PROG = st.one_of(st.none(), st.tuples(st.booleans(), _CTX_EXIT).map(list))
+_IGNORE = st.sampled_from([False, False, False, True])
+
+
+@st.composite
+def contexts_case(draw, sub: str):
+    """A schedule over 2-4 real threads, 0-3 asyncio tasks of one private loop and 0-4 copied contexts.  The strategy
+    keeps the same model as the executor (who exists, which blocks everyone is in) so that only legal operations are
+    drawn.  Campaign 'threads' derives contexts (copy_context, tasks, threads) only where the deriving actor is inside no
+    real block - every context then has to validate unless it is inside a block of its OWN; campaign 'contexts' also
+    derives them inside blocks, so that they are used while those blocks are still open and after they were left."""
+    nthr = draw(st.integers(2, 3))
+    stack = {"main": []}  # actor -> ignore flags of the blocks it is in
+    for i in range(nthr):
+        stack[f"t{i}"] = []
+    ntask = ncopy = 0
+    ops = []
+    for _ in range(draw(st.integers(2, 20))):
+        # actors that are inside a block, and tasks (which come into being late), get the baton more often
+        names = [n for n in stack for _w in range((1 if n == "main" else 4 if n[0] == "a" else 2) + (2 if stack[n] else 0))]
+        who = names[draw(st.integers(0, len(names) - 1))]
+        free = sub == "contexts" or all(stack[who])  # may derive a context here
+        nthreads = len([n for n in stack if n[0] == "t"])
+        acts = ["probe", "probe"]
+        if who != "main":
+            if len(stack[who]) < 3:
+                acts += ["enter", "enter"]
+            if stack[who]:
+                acts += ["leave", "leave", "leave"]
+        if free and ncopy < MAX_COPIES:
+            acts += ["copy"] if all(stack[who]) else ["copy", "copy"]
+        if who[0] != "a" and ncopy:
+            acts += ["run", "run"]
+        if free and who[0] != "t" and ntask < MAX_TASKS:
+            acts += ["spawn", "spawn"] if not ntask or not all(stack[who]) else ["spawn"]
+        if free and who[0] == "t" and nthreads < MAX_THREADS:
+            acts.append("tstart")
+        act = draw(st.sampled_from(acts))
+        if act == "probe":
+            ops.append(["probe", who, draw(_BOOL)])
+        elif act == "copy":
+            ops.append(["copy", who])
+            ncopy += 1
+        elif act == "enter":
+            ig = draw(_IGNORE)
+            ops.append(["enter", who, ig])
+            stack[who].append(ig)
+        elif act == "leave":
+            ops.append(["leave", who, draw(_CTX_EXIT)])
+            stack[who].pop()
+        elif act == "run":
+            ops.append(["run", draw(st.integers(0, ncopy - 1)), who, draw(_CTX_PROG), draw(_BOOL)])
+        elif act == "spawn":
+            ops.append(["spawn", who])
+            stack[f"a{ntask}"] = []
+            ntask += 1
+        else:
+            ops.append(["tstart", who])
+            stack[f"t{nthreads}"] = []
+    return {"sub": sub, "threads": nthr, "ops": ops, "probe": draw(st.sampled_from(["int", "byte", "farr", "struct"]))}
+
+
+_BOOL = st.booleans()
+
+
 def disable_case():
     return st.builds(lambda tree, probe: {"sub": "disable", "tree": tree, "probe": probe},
                      st.lists(_node(3), min_size=1, max_size=4), st.sampled_from(["int", "byte", "farr", "struct"]))
@@ -1058,6 +1659,10 @@ def shard(seed: int, n_assign: int, n_disable: int) -> Result:
     # own campaigns, so that a finding here (one is a known open one) cannot hide anything in the forest campaign
     hyp_run(lambda t: run_case(t, res), suspended_case("suspended"), seed * 16 + 14, max(1, n_disable // 2), res)
     hyp_run(lambda t: run_case(t, res), suspended_case("interleaved"), seed * 16 + 13, max(1, n_disable // 2), res)
+    # real threads / asyncio tasks / copied contexts in lock-step; two campaigns for the same reason
+    n_ctx = max(1, n_disable * 2 // 3)
+    hyp_run(lambda t: run_case(t, res), contexts_case("threads"), seed * 16 + 12, n_ctx, res)
+    hyp_run(lambda t: run_case(t, res), contexts_case("contexts"), seed * 16 + 11, n_ctx, res)
     _reset_validation()
     return res
 
